@@ -104,7 +104,7 @@ def general_graph(rnd, max_nodes=7, bnodes=True, rich_literals=True, inst_prop=M
                 else:
                     o = _lit(rnd, rich_literals)
                 T.add((n, p, o))
-    if hierarchy and rnd.random() < (.25 if hierarchy is True else float(hierarchy)):      # the classes are described in the data too (typed with a meta-class, linked from / to nodes)
+    if hierarchy and rnd.random() < (.25 if hierarchy in (True, "props") else float(hierarchy)):      # the classes are described in the data too (typed with a meta-class, linked from / to nodes)
         for c in classes:
             if rnd.random() < .7:
                 T.add((M.iri(c), inst_prop, M.iri(EX + "Kind")))
@@ -112,7 +112,7 @@ def general_graph(rnd, max_nodes=7, bnodes=True, rich_literals=True, inst_prop=M
                 T.add((M.iri(c), rnd.choice(props), rnd.choice(nodes)))
             if rnd.random() < .3:
                 T.add((rnd.choice(nodes), rnd.choice(props), M.iri(c)))
-    if hierarchy and rnd.random() < .15:      # the properties are described in the data too: one IRI is a predicate here and a node there
+    if hierarchy and rnd.random() < (1.0 if hierarchy == "props" else .15):      # the properties are described in the data too: one IRI is a predicate here and a node there
         for p in rnd.sample(props, rnd.randint(1, len(props))):
             T.add((M.iri(p), inst_prop, M.iri(rnd.choice(classes + [EX + "Prop"]))))
             if rnd.random() < .5:
@@ -517,6 +517,28 @@ def inverse_or_case(rnd, cid):
     rnd.shuffle(T)
     return case(cid, T, mode="shapemap", items=items, nsDict=NSDICT, inverse=True, disableOr=False, redundantOr=rnd.random() < .5,
                 removeEmpty=True, thr=rnd.choice([[0, 1], [1, 2], [3, 4], [1, 1]]), allCompliant=rnd.random() < .5)
+
+
+def asym_link_case(rnd, cid):
+    """two shape-map shapes T and S joined by a link that few nodes on either side take part in: one of the nt nodes of T points
+    to one of the ns nodes of S. With inverse paths and a threshold between the two frequencies S has no feature left in either
+    direction while T still refers to it"""
+    nt_, ns_ = rnd.randint(2, 3), rnd.randint(3, 4)
+    Ts = [M.iri(EX + "t%d" % i) for i in range(nt_)]
+    Ss = [M.iri(EX + "s%d" % i) for i in range(ns_)]
+    T, items = [], []
+    for x in Ts:
+        items.append({"label": EX + "shapes/LT", "labelSpelling": "bracket", "spelling": "bracket", "kind": "node", "node": list(x)})
+        T.append((x, EX + "title", M.lit("t")))
+    for i, x in enumerate(Ss):
+        items.append({"label": EX + "shapes/LS", "labelSpelling": "bracket", "spelling": "bracket", "kind": "node", "node": list(x)})
+        if rnd.random() < .6:
+            T.append((x, EX + "odd%d" % i, M.lit("o")))
+    for x in rnd.sample(Ts, rnd.randint(1, nt_ - 1)):
+        T.append((x, EX + "p", Ss[0]))
+    rnd.shuffle(T)
+    return case(cid, T, mode="shapemap", items=items, nsDict=NSDICT, inverse=rnd.random() < .8, removeEmpty=rnd.random() < .9,
+                thr=rnd.choice([[1, 2], [1, 2], [51, 100], [2, 5]]), report="mixed")
 
 
 def tied_focus_case(rnd, cid):
